@@ -713,3 +713,83 @@ def _struct_obj(G, name):
     if name == "polygon":
         return G.Polygon(G.Point(0, 0), G.Point(1, 0), G.Point(0, 1))
     raise KeyError(name)
+
+
+# ---------------------------------------------------------------------------------------------------
+# item assignment between two uses of the same object: t[index] = value is numpy's assignment on the array, and every later
+# operation sees the new entries (compared with an object that received the same assignment before its first use)
+
+
+def _assignments(shape):
+    """(label, index, value) for an array of the given shape (integer values, so every dtype can hold them)."""
+    out = [("first-entry", (0,) * len(shape), 5), ("last-entry", tuple(s - 1 for s in shape), -4)]
+    if len(shape) >= 2:
+        out.append(("first-row", 0, (np.arange(int(np.prod(shape[1:]))).reshape(shape[1:]) % 3 + 2)))
+        out.append(("last-column", (Ellipsis, -1), 3))
+    else:
+        out.append(("slice", slice(0, 2), 6))
+    return out
+
+
+def enum_setitem(tier, seed):
+    for l in LEFT:
+        for use in ("add-same", "sub-same", "mul-int", "neg", "eq-same", "normalized_array", "getitem"):
+            yield (l, use)
+
+
+@family("C19", "setitem_then_use", enum_setitem)
+def case_setitem(ctx, cfg):
+    import geometer as G
+    from geometer.point import PointLikeTensor
+
+    lname, use = cfg
+    probe = left_obj(G, lname)
+    if use == "normalized_array" and not isinstance(probe, PointLikeTensor):
+        return
+
+    def apply(t):
+        x = left_obj(G, lname, variant=2)
+        if use == "add-same":
+            return t + x
+        if use == "sub-same":
+            return t - x
+        if use == "mul-int":
+            return t * 2
+        if use == "neg":
+            return -t
+        if use == "eq-same":
+            return t == x
+        if use == "normalized_array":
+            return t.normalized_array
+        return t[..., 0]
+
+    def value_of(r):
+        return np.asarray(r.array) if hasattr(r, "array") else np.asarray(r)
+
+    for label, idx, val in _assignments(probe.array.shape):
+        ctx.state((lname, use, label))
+        t = left_obj(G, lname)
+        before = t.array.copy()
+        r1, e1 = ctx.call(apply, t)  # first use
+        _, e = ctx.call(t.__setitem__, idx, val)
+        ctx.trace(2)
+        inputs = {"left": lname, "use": use, "assignment": label, "array_before": before}
+        want_arr = before.copy()
+        want_arr[idx] = val
+        if e is not None or not np.array_equal(t.array, want_arr):
+            ctx.fail(f"setitem:{'raises' if e is not None else 'array'}", "__setitem__", inputs, want_arr, e if e is not None else t.array)
+            return
+        r2, e2 = ctx.call(apply, t)  # second use, after the assignment
+        f = left_obj(G, lname)
+        f[idx] = val
+        rf, ef = ctx.call(apply, f)  # the same state without the earlier use
+        ctx.trace(2)
+        if (e2 is None) != (ef is None):
+            ctx.fail("setitem-then-use:exception-differs", use, inputs, repr(ef), repr(e2))
+            return
+        if e2 is not None:
+            continue
+        a2, af = value_of(r2), value_of(rf)
+        if a2.shape != af.shape or not arr_eq(a2, af) or (hasattr(r2, "array") and hasattr(rf, "array") and types_of(r2) != types_of(rf)):
+            ctx.fail(f"setitem-then-use:{use}:stale", use, inputs, af, a2)
+            return
